@@ -27,7 +27,7 @@ NAME_CLASSES = {
     "name:control": ["tab\there", "nl\nhere", "bell\x07"],
     "name:long200": ["L" + "o" * 198 + "g"],
     "name:afm-word": ["Q", "Abc123", "XyZ", "A1b2C3", "Zzzzzzzzzzzzzzzzzzzz"],
-    "name:unicode-digit": ["Zone\u0663", "v\uff12_beta", "tier\u0967", "X\u0661\u0662"],
+    "name:unicode-digit": ["Zone\u0663", "v\uff12_beta", "tier\u0967", "X\u0661\u0662", "Area_m\u00b2", "CO\u2082", "Step\u2460", "x\u00b9"],
     "name:line-separators": ["a\u2028b", "x\u2029y", "n\u0085m"],
     "name:numeric-looking": ["2024", "1e3", "Infinity", "NaN", "1_000", "10", "inf", "0x1F", "-5"],
 }
@@ -232,6 +232,27 @@ def inj_ctc_wide(ops=("AND", "OR", "IMPLIES")):
     return f
 
 
+def inj_nfc_twin(spec, r):
+    """Two distinct features whose names are canonically equivalent Unicode strings (composed / decomposed)."""
+    feats = _feats(spec)
+    if len(feats) < 3:
+        return None
+    a, b = r.sample(feats[1:], 2)
+    comp, decomp = r.choice([("Caf\u00e9", "Cafe\u0301"), ("\u00c5ngstr\u00f6m", "A\u030angstro\u0308m"), ("na\u00efve", "nai\u0308ve")])
+    names = set(S.feature_names(spec))
+    if comp in names or decomp in names:
+        return None
+    for f, new in ((a, comp), (b, decomp)):
+        old = f["name"]
+        f["name"] = new
+        for c in spec["ctcs"]:
+            c["ast"] = _subst(c["ast"], old, new)
+    other = feats[0]["name"]
+    _add_ctc(spec, ["REQUIRES", comp, other])
+    _add_ctc(spec, ["EXCLUDES", decomp, comp])
+    return spec
+
+
 def inj_dash_twin(spec, r):
     """Two features named X and -X, both used in one constraint."""
     feats = _feats(spec)
@@ -260,7 +281,8 @@ def inj_dup_ctc(spec, r):
 
 def inj_afm_attr_strings(spec, r):
     feat = r.choice(_feats(spec))
-    vals = ['"locker box"', '"a b c"', '"plain"', '"two  blanks"'] + [f'"value number {k}"' for k in range(r.randint(0, 12))]
+    vals = ['"locker box"', '"a b c"', '"plain"', '"two  blanks"', '"JOB DONE\rREMOVE PAPER"', '"tab\there"'] + \
+        [f'"value number {k}"' for k in range(r.randint(0, 12))]
     dom = {"ranges": [], "elements": vals}
     feat.setdefault("attrs", []).append({"name": "label" + str(len(feat.get("attrs", []))), "domain": dom,
                                          "default": vals[0], "null": vals[2]})
